@@ -1,6 +1,351 @@
-//! C10 scenarios (closure search) — filled in below.
-use crate::report::Tier;
-use crate::runner::Runner;
+//! C10: freed space is reused.  (a) closure search: the complete reachable state graph of small
+//! cyclic workloads, keyed by a digest without absolute transaction ids; a fixpoint proves the page
+//! high-water mark bounded for all infinite runs over that alphabet.  (b) long deterministic laps.
+
+use serde_json::{json, Value};
+
+use crate::fileck;
+use crate::iosim;
+use crate::pool::{Outcome, Pool};
+use crate::real;
+use crate::refmodel::{BucketM, Item, OpSpec};
+use crate::report::{self, Check, Tier};
+use crate::runner::{hash128, Action, Cfg, Oracles, Runner};
 use crate::seqx::Scenario;
-pub fn scenarios(_tier: Tier) -> Vec<Scenario> { vec![] }
-pub fn rel_digest(r: &Runner, _bytes: &[u8]) -> u128 { r.digest() }
+
+fn tx(ops: Vec<OpSpec>) -> Action {
+    Action::Tx { ops, commit: true }
+}
+
+fn render_masked(m: &BucketM, out: &mut String) {
+    out.push('{');
+    for (k, it) in &m.items {
+        match it {
+            Item::Kv(v) => {
+                out.push_str(&format!("{:x}={:x} ", hash128(k) as u64, hash128(v) as u64));
+            }
+            Item::Bucket(s) => {
+                out.push_str(&format!("{:x}:", hash128(k) as u64));
+                render_masked(s, out);
+            }
+        }
+    }
+    out.push('}');
+}
+
+/// Digest of a state without anything that grows with the number of transactions.
+pub fn rel_digest(r: &Runner, bytes: &[u8]) -> u128 {
+    let (file_part, cur_tx) = match fileck::check(bytes, r.cfg.pagesize) {
+        Ok(rep) => (rep.rel_hash ^ ((rep.errors.len() as u128) << 100), rep.tx_id),
+        Err(_) => (hash128(bytes), 0),
+    };
+    let s = r.db().verif_snapshot();
+    let mut extra = format!("free{:?}", s.free);
+    // pending lists keyed by age relative to the current header
+    for (id, pages) in &s.pending {
+        let mut p = pages.clone();
+        p.sort_unstable();
+        p.dedup();
+        extra.push_str(&format!("p{}:{:?}", cur_tx as i64 - *id as i64, p));
+    }
+    for id in &s.open_ro {
+        extra.push_str(&format!("r{}", cur_tx as i64 - *id as i64));
+    }
+    for (m, age) in r.reader_models() {
+        extra.push_str(&format!("R{}", age));
+        render_masked(m, &mut extra);
+    }
+    file_part ^ hash128(extra.as_bytes()).rotate_left(17)
+}
+
+pub fn scenarios(tier: Tier) -> Vec<Scenario> {
+    let q = tier == Tier::Quick;
+    let mut out = vec![];
+    let keys = ["a", "b", "c"];
+    let base = |vals: &str| -> Vec<Action> {
+        let mut ops = vec![OpSpec::bucket("create", &[], "w")];
+        for k in keys {
+            ops.push(OpSpec::put(&["w"], k, vals));
+        }
+        vec![tx(ops), Action::Reopen]
+    };
+    let or = Oracles::NONE;
+    let cfg = Cfg { num_pages: 64, ..Cfg::default() };
+    let mk = |name: &str, setup: Vec<Action>, alpha: Vec<Action>, depth: usize, cap: usize| {
+        let mut sc = Scenario::new(name, cfg.clone(), setup, Box::new(alpha), depth, or);
+        sc.rel_digest = true;
+        sc.state_cap = cap;
+        sc.max_readers = 1;
+        sc.reader_commit_limit = Some(3);
+        sc
+    };
+    // W1: overwrite each of 3 keys with one fixed size, reopen
+    let mut a1: Vec<Action> = vec![Action::Reopen];
+    for k in keys {
+        a1.push(tx(vec![OpSpec::put(&["w"], k, "p*100")]));
+    }
+    out.push(mk("overwrite-fixed-size", base("p*100"), a1.clone(), 64, 50_000));
+    // W2: two sizes
+    let mut a2: Vec<Action> = vec![Action::Reopen];
+    for k in keys {
+        for v in ["p*100", "q*400"] {
+            a2.push(tx(vec![OpSpec::put(&["w"], k, v)]));
+        }
+    }
+    out.push(mk("overwrite-two-sizes", base("p*100"), a2.clone(), 64, if q { 60_000 } else { 400_000 }));
+    // W3: delete / re-insert (insertion counters masked in the key)
+    let mut a3: Vec<Action> = vec![Action::Reopen];
+    for k in keys {
+        a3.push(tx(vec![OpSpec::del(&["w"], k)]));
+        a3.push(tx(vec![OpSpec::put(&["w"], k, "p*100")]));
+    }
+    out.push(mk("delete-reinsert", base("p*100"), a3, 64, if q { 60_000 } else { 400_000 }));
+    // W4: delete and recreate a bucket next to a stable one
+    let a4: Vec<Action> = vec![
+        Action::Reopen,
+        tx(vec![OpSpec::bucket("delb", &[], "w")]),
+        tx(vec![OpSpec::bucket("goc", &[], "w"), OpSpec::put(&["w"], "a", "p*100"), OpSpec::put(&["w"], "b", "q*400")]),
+        tx(vec![OpSpec::bucket("goc", &[], "w"), OpSpec::put(&["w"], "c", "p*100")]),
+        tx(vec![OpSpec::bucket("goc", &[], "keep"), OpSpec::put(&["keep"], "x", "p*100")]),
+    ];
+    out.push(mk("bucket-delete-recreate", base("p*100"), a4, 64, if q { 60_000 } else { 400_000 }));
+    // W5: fixed-size overwrites with one reader that may stay open across at most 3 commits
+    let mut a5: Vec<Action> = vec![Action::OpenReader, Action::CloseReader(0)];
+    for k in keys {
+        a5.push(tx(vec![OpSpec::put(&["w"], k, "p*100")]));
+    }
+    let mut sc = mk("overwrite-with-pinned-reader", base("p*100"), a5, 64, if q { 60_000 } else { 400_000 });
+    sc.cfg.num_pages = 512;
+    out.push(sc);
+    {
+        // W6: an overflow value coming and going
+        let mut a6: Vec<Action> = vec![Action::Reopen];
+        for k in ["a", "b"] {
+            for v in ["p*100", "x*1500"] {
+                a6.push(tx(vec![OpSpec::put(&["w"], k, v)]));
+            }
+        }
+        out.push(mk("overflow-come-and-go", base("p*100"), a6, 64, 400_000));
+    }
+    if !q {
+        // W7: two sizes with a pinned reader
+        let mut a7: Vec<Action> = vec![Action::OpenReader, Action::CloseReader(0)];
+        for k in ["a", "b"] {
+            for v in ["p*100", "q*400"] {
+                a7.push(tx(vec![OpSpec::put(&["w"], k, v)]));
+            }
+        }
+        let mut sc = mk("two-sizes-with-pinned-reader", base("p*100"), a7, 64, 400_000);
+        sc.cfg.num_pages = 512;
+        out.push(sc);
+    }
+    out
+}
+
+// ---------------------------------------------------------------------------------------------
+// (b) long deterministic laps
+
+pub struct Lap {
+    pub name: &'static str,
+    pub reopen_every: usize,
+    /// (start, length) in transactions of a stretch during which one reader is held open
+    pub reader_stretch: Option<(usize, usize)>,
+    pub kind: u8,
+}
+
+pub fn laps() -> Vec<Lap> {
+    vec![
+        Lap { name: "fixed-size-overwrite", reopen_every: 0, reader_stretch: None, kind: 0 },
+        Lap { name: "fixed-size-overwrite-reopen-every-50", reopen_every: 50, reader_stretch: None, kind: 0 },
+        Lap { name: "variable-size-overwrite", reopen_every: 0, reader_stretch: None, kind: 1 },
+        Lap { name: "variable-size-overwrite-reopen-every-37", reopen_every: 37, reader_stretch: None, kind: 1 },
+        Lap { name: "delete-reinsert-and-bucket-delete", reopen_every: 0, reader_stretch: None, kind: 2 },
+        Lap { name: "delete-reinsert-and-bucket-delete-reopen-every-101", reopen_every: 101, reader_stretch: None, kind: 2 },
+        Lap { name: "variable-size-with-reader-held-for-a-stretch", reopen_every: 0, reader_stretch: Some((300, 40)), kind: 1 },
+        Lap { name: "bucket-delete-with-reader-held-for-a-stretch", reopen_every: 0, reader_stretch: Some((500, 25)), kind: 2 },
+    ]
+}
+
+fn lap_ops(kind: u8, i: usize) -> Vec<OpSpec> {
+    let k = format!("key{:02}", (i * 7) % 20);
+    match kind {
+        0 => vec![OpSpec::put(&["lap"], &k, "f*200"), OpSpec::put(&["lap"], &format!("key{:02}", (i * 3 + 1) % 20), "f*200")],
+        1 => {
+            let sizes = ["a*40", "b*300", "c*900", "d*1500", "e*3200", "g*120"];
+            vec![OpSpec::put(&["lap"], &k, sizes[i % sizes.len()]), OpSpec::put(&["lap"], &format!("key{:02}", (i * 11 + 5) % 20), sizes[(i / 3) % sizes.len()])]
+        }
+        _ => match i % 5 {
+            0 => vec![OpSpec::del(&["lap"], &k)],
+            1 => vec![OpSpec::put(&["lap"], &k, "b*300"), OpSpec::put(&["lap"], &format!("key{:02}", (i + 1) % 20), "b*300")],
+            2 => vec![OpSpec::bucket("goc", &["lap"], "sub"), OpSpec::put(&["lap", "sub"], &k, "c*900"), OpSpec::put(&["lap", "sub"], "more", "b*300")],
+            3 => vec![OpSpec::bucket("delb", &["lap"], "sub")],
+            _ => vec![OpSpec::put(&["lap"], &k, "a*40"), OpSpec::del(&["lap"], &format!("key{:02}", (i * 13) % 20))],
+        },
+    }
+}
+
+pub fn run_lap(lap: &Lap, n: usize, path: &str) -> Value {
+    // a reader held by the same thread forbids growth (documented self-deadlock): pre-size the file
+    let cfg = Cfg { num_pages: if lap.reader_stretch.is_some() { 4096 } else { 32 }, ..Cfg::default() };
+    let mut viols: Vec<Value> = vec![];
+    let mut r = match Runner::new(path, cfg.clone()) {
+        Ok(r) => r,
+        Err(e) => return json!({"err": e}),
+    };
+    let mut setup = vec![OpSpec::bucket("create", &[], "lap")];
+    for i in 0..20 {
+        setup.push(OpSpec::put(&["lap"], &format!("key{:02}", i), "f*200"));
+    }
+    r.step(&tx(setup), &Oracles::NONE);
+    let mut max_live = 0u64;
+    let mut hw_series: Vec<u64> = vec![];
+    let mut max_first_half = 0u64;
+    let mut max_second_half = 0u64;
+    let mut reader_closed_at: Option<(usize, u64)> = None;
+    let mut file_len_max = 0u64;
+    let check_every = 1usize;
+    for i in 0..n {
+        if lap.reopen_every > 0 && i % lap.reopen_every == lap.reopen_every - 1 && r.num_readers() == 0 {
+            r.step(&Action::Reopen, &Oracles::NONE);
+        }
+        if let Some((s, len)) = lap.reader_stretch {
+            if i == s {
+                r.step(&Action::OpenReader, &Oracles::NONE);
+            }
+            if i == s + len {
+                r.step(&Action::CloseReader(0), &Oracles::NONE);
+            }
+        }
+        let ops = lap_ops(lap.kind, i);
+        let or = if i % 97 == 0 { Oracles { dump_after: true, ..Oracles::NONE } } else { Oracles::NONE };
+        let v = r.step(&tx(ops), &or);
+        for x in v {
+            if viols.len() < 5 {
+                viols.push(json!([format!("lap:{}", x.class), format!("transaction {}: {}", i, x.detail)]));
+            }
+        }
+        if r.poisoned {
+            break;
+        }
+        // a leaking build is certain long before the end of the lap: stop as soon as the mark is
+        // beyond anything a reusing store can need (also keeps the file from outgrowing its pre-sizing)
+        let allowance = lap.reader_stretch.map(|(_, len)| len as u64 * 64).unwrap_or(0);
+        if hw_series.last().copied().unwrap_or(0) > 4 * max_live + 16 + allowance && i > 50 {
+            break;
+        }
+        if i % check_every == 0 {
+            let bytes = r.file_bytes();
+            if let Ok(rep) = fileck::check(&bytes, cfg.pagesize) {
+                max_live = max_live.max(rep.live_pages);
+                hw_series.push(rep.num_pages);
+                if i < n / 2 {
+                    max_first_half = max_first_half.max(rep.num_pages);
+                } else {
+                    max_second_half = max_second_half.max(rep.num_pages);
+                }
+                if !rep.ok() && viols.len() < 5 {
+                    viols.push(json!(["lap:fileck", format!("transaction {}: {}", i, rep.errors[0])]));
+                }
+                if let Some((s, len)) = lap.reader_stretch {
+                    if i == s + len {
+                        reader_closed_at = Some((i, rep.num_pages));
+                    }
+                }
+            }
+            file_len_max = file_len_max.max(std::fs::metadata(path).map(|m| m.len()).unwrap_or(0));
+        }
+    }
+    let hw = hw_series.iter().copied().max().unwrap_or(0);
+    let budget = 4 * max_live + 16;
+    // (while a reader pins a snapshot everything freed after it is legitimately retained, so the
+    // absolute budget applies to the laps without a reader; those with one are judged by the
+    // plateau and the settle-after-close rules below)
+    let allowance = lap.reader_stretch.map(|(_, len)| len as u64 * 64).unwrap_or(0);
+    if hw > budget + allowance {
+        viols.push(json!(["unbounded_growth", format!("high-water mark {} pages exceeds 4 x the largest snapshot ({} pages) + 16{} after {} transactions", hw, max_live, if allowance > 0 { format!(" + {} for the pinned stretch", allowance) } else { String::new() }, hw_series.len())]));
+    }
+    if max_second_half > max_first_half && lap.reader_stretch.map(|(s, l)| s + l < n / 2).unwrap_or(true) && n >= 1000 {
+        viols.push(json!(["no_plateau", format!("the high-water mark still rose in the second half of the run: {} pages in the first half, {} in the second", max_first_half, max_second_half)]));
+    }
+    if let Some((at, hw_at)) = reader_closed_at {
+        // after the pinned reader closes, the mark must stop rising within max_live further commits
+        let settle = at + max_live as usize + 2;
+        if settle < hw_series.len() {
+            let after = hw_series[settle..].iter().copied().max().unwrap_or(0);
+            let at_settle = hw_series[..=settle].iter().copied().max().unwrap_or(0);
+            if after > at_settle {
+                viols.push(json!(["no_reuse_after_reader_closed", format!("reader closed at transaction {} (mark {}), but the mark kept rising after transaction {}: {} -> {}", at, hw_at, settle, at_settle, after)]));
+            }
+        }
+    }
+    let len_budget = ((hw * cfg.pagesize) / (8 << 20) + 2) * (8 << 20) + cfg.pagesize * cfg.num_pages as u64;
+    if file_len_max > len_budget {
+        viols.push(json!(["file_length", format!("file length {} exceeds the high-water mark rounded up by the growth step ({})", file_len_max, len_budget)]));
+    }
+    json!({"v": viols, "transactions": n, "high_water": hw, "largest_snapshot_pages": max_live, "first_half_max": max_first_half, "second_half_max": max_second_half, "file_len_max": file_len_max})
+}
+
+pub fn lap_worker(idx: usize) {
+    real::install_quiet_panic_hook();
+    let scratch = report::scratch_dir();
+    iosim::set_track_prefix(&scratch);
+    let dir = format!("{}/l{}", scratch, idx);
+    std::fs::create_dir_all(&dir).ok();
+    let path = format!("{}/lap.db", dir);
+    crate::pool::serve(|init, job, emit| {
+        let iv: Value = serde_json::from_str(init).unwrap();
+        let n = iv["n"].as_u64().unwrap_or(2000) as usize;
+        let i: usize = job.trim().parse().unwrap();
+        emit(&i.to_string());
+        let ls = laps();
+        match real::guarded(|| run_lap(&ls[i], n, &path)) {
+            Ok(v) => v.to_string(),
+            Err(p) => json!({"v": [["lap:harness_panic", p]]}).to_string(),
+        }
+    });
+}
+
+pub fn run_laps(check: &mut Check) -> (u64, Vec<Value>) {
+    let tier = check.tier;
+    let n = if tier == Tier::Quick { 2000 } else { 20000 };
+    let scratch = report::scratch_dir();
+    let init = json!({"n": n}).to_string();
+    let mut pool = Pool::new("c10laps", &init, report::ncpu().min(laps().len()), &scratch);
+    pool.job_timeout = std::time::Duration::from_secs(1800);
+    let ls = laps();
+    let mut rows = vec![];
+    let mut found = vec![];
+    let mut total = 0u64;
+    pool.run((0..ls.len()).map(|i| i.to_string()).collect(), |ji, o| match o {
+        Outcome::Done(r) => {
+            let v: Value = serde_json::from_str(&r).unwrap_or(Value::Null);
+            total += v["transactions"].as_u64().unwrap_or(0);
+            rows.push(json!({"lap": ls[ji].name, "transactions": v["transactions"], "high_water_pages": v["high_water"], "largest_snapshot_pages": v["largest_snapshot_pages"], "first_half_max": v["first_half_max"], "second_half_max": v["second_half_max"]}));
+            for x in v["v"].as_array().cloned().unwrap_or_default() {
+                found.push((ji, x[0].as_str().unwrap_or("").to_string(), x[1].as_str().unwrap_or("").to_string()));
+            }
+        }
+        other => found.push((ji, "process_death".into(), format!("{:?}", other))),
+    });
+    for (ji, c, d) in found {
+        check.violation(&c, &format!("[lap {}] {}", ls[ji].name, d), || json!({"engine": "c10laps", "lap": ji, "lap_name": ls[ji].name, "n": n}));
+    }
+    (total, rows)
+}
+
+pub fn replay_lap(v: &Value) -> i32 {
+    real::install_quiet_panic_hook();
+    let scratch = report::scratch_dir();
+    iosim::set_track_prefix(&scratch);
+    let ls = laps();
+    let i = v["lap"].as_u64().unwrap_or(0) as usize;
+    let n = v["n"].as_u64().unwrap_or(2000) as usize;
+    let r = run_lap(&ls[i], n, &format!("{}/replay.db", scratch));
+    println!("{}", serde_json::to_string_pretty(&r).unwrap());
+    report::cleanup_scratch(&scratch);
+    if r["v"].as_array().map(|a| a.is_empty()).unwrap_or(true) {
+        0
+    } else {
+        1
+    }
+}
